@@ -115,8 +115,11 @@ PROPS = {
 import glob as _glob, os as _os
 EXTRA_META = {}
 for _f in sorted(_glob.glob(_os.path.join(_os.path.dirname(_os.path.abspath(__file__)), 'props.d', 'C*.py'))):
+    _pid = _os.path.basename(_f)[:-3]
+    # only properties the integrator has wired into the build are registered
+    if _pid not in open(_os.path.join(_os.path.dirname(_f), 'ENABLED')).read().split():
+        continue
     _ns = {}
     exec(compile(open(_f).read(), _f, 'exec'), _ns)
-    _pid = _os.path.basename(_f)[:-3]
     PROPS[_pid] = _ns['PROP']
     EXTRA_META[_pid] = _ns['META']
